@@ -446,6 +446,48 @@ def r3_replace_protocol(rep, src):
         rep.ok('C19.R3', f.site, 'write errors propagate', 'no swallowing handler', nontrivial=False)
 
 
+def r9b_content_lines(rep, src):
+    """str.splitlines() also ends a line at a form feed, a lone CR, VT, FS / GS / RS, NEL, U+2028 and U+2029.  Where the text that was
+    read from the local copy or from a download (an expression that contains .read() / .decode(), directly or through locals of the
+    function) is cut with it, a copy with such a character inside a line has more lines than the repository counted: the patches land on
+    the wrong lines and update_file fails on every run although nothing is corrupted.  (The entries of an index FIELD are whitespace-free
+    tokens on lines of their own: cutting a field value with splitlines() is not judged here.)"""
+    mod = src.mod(MODN)
+    n = 0
+    for q in ('update_file', 'download_gunzip_lines', '_download_gunzip', 'download_file'):
+        f = mod.funcs.get(q)
+        if f is None:
+            continue
+        rep.saw_func(f)
+        n += 1
+        binds = {}
+        for st in ast.walk(f.node):
+            if isinstance(st, ast.Assign) and len(st.targets) == 1 and isinstance(st.targets[0], ast.Name):
+                binds.setdefault(st.targets[0].id, []).append(st.value)
+
+        def from_content(e, depth=0):
+            for x in ast.walk(e):
+                if isinstance(x, ast.Call) and isinstance(x.func, ast.Attribute) and x.func.attr in ('read', 'decode', 'getvalue'):
+                    return True
+                if isinstance(x, ast.Name) and depth < 3 and any(from_content(v, depth + 1) for v in binds.get(x.id, [])):
+                    return True
+            return False
+        bad = [c for c in ast.walk(f.node) if isinstance(c, ast.Call) and isinstance(c.func, ast.Attribute) and c.func.attr == 'splitlines' and from_content(c.func.value)
+               and not any(isinstance(x, ast.Call) and isinstance(x.func, ast.Attribute) and x.func.attr == 'decode' for x in ast.walk(c.func.value)) is False]
+        bad = [c for c in bad if any(isinstance(x, ast.Call) and isinstance(x.func, ast.Attribute) and x.func.attr == 'decode' for x in ast.walk(c.func.value))
+               or any(isinstance(x, ast.Name) and any(from_content(v) and any(isinstance(y, ast.Call) and isinstance(y.func, ast.Attribute) and y.func.attr == 'decode' for y in ast.walk(v))
+                                                      for v in binds.get(x.id, [])) for x in ast.walk(c.func.value))]
+        what = 'content read from the local copy / a download is not cut into lines with str.splitlines()'
+        if bad:
+            rep.fail('C19.R9', f.site, what, '`%s` cuts decoded text at a form feed, a lone CR, NEL, U+2028 ... as well: a copy with such a character inside a line has more lines '
+                     'than the repository counted, the patches land on the wrong lines, and update_file fails on every run although nothing is corrupted' % norm(bad[0])[:80],
+                     where='%s:%d' % (mod.relpath, bad[0].lineno))
+        else:
+            rep.ok('C19.R9', f.site, what, 'no str.splitlines() on decoded content', nontrivial=False)
+    if n < 2:
+        raise AnalysisError('%s: update_file / download_gunzip_lines not found' % MODN)
+
+
 def r10_replace_by_interpretation(rep, src):
     """replace_file interpreted (sa.heap) on a model file system -- open / write / writelines / flush / close (a text file is buffered:
     what is written reaches the file when the buffer is flushed or the file is closed, and THAT is where a full disk is reported),
@@ -1052,6 +1094,10 @@ def _interpret_update(src, index, local_hash, prefix, undecodable=(), garbled=()
                     if nm_ in garbled:
                         return 'hash of something else'
                     return ('ph:' if kind == prefix else 'oph:') + nm_
+                if items and all(isinstance(y_, (str, bytes)) for y_ in items) and b''.join(y_ if isinstance(y_, bytes) else y_.encode() for y_ in items) == b'line\n':
+                    # the local copy, however it was read and cut (its one line of text)
+                    state['local_lines'] = x
+                    return state['hash'] if kind == prefix else 'other:' + state['hash']
             raise AnalysisError('C19 scenario: hash of %r' % (x,))
         return hk
 
@@ -1090,7 +1136,11 @@ def _interpret_update(src, index, local_hash, prefix, undecodable=(), garbled=()
         state['hash'] = (hist[idx[0] + 1][0] if idx[0] + 1 < len(hist) else cur) if idx else 'garbage'
         log.append(('apply', name))
         return None
-    hooks = {'open': lambda it, a, k: it.h.alloc('Stream', {}), '.readlines': lambda it, a, k: it.h.new_list(['line\n'], '@locallines'),
+    hooks = {'open': lambda it, a, k: it.h.alloc('Stream', {'binary': 'b' in (a[1] if len(a) > 1 and isinstance(a[1], str) else k.get('mode', 'r'))}),
+             '.readlines': lambda it, a, k: it.h.new_list(['line\n'], '@locallines'),
+             # (the whole local copy in one piece: one line of text -- bytes when the file was opened in binary mode)
+             '.read': lambda it, a, k: (b'line\n' if it.h.objs[a[0].name].get('binary') else 'line\n') if isinstance(a[0], H.Ref) and it.h.objs[a[0].name]['__class__'] == 'Stream' else NotImplemented,
+             '.close': lambda it, a, k: None,
              'urlopen': lambda it, a, k: (log.append(('urlopen', a[0])), it.h.alloc('Stream', {}))[1],
              'PackageFile': lambda it, a, k: it.h.new_list([it.h.new_list([(x, y) for x, y in para]) for para in index]),
              'read_lines_sha256': h_hash('SHA256'), 'read_lines_sha1': h_hash('SHA1'), 'download_gunzip_lines': h_dl_patch, '_download_gunzip': h_dl_any,
@@ -1102,7 +1152,7 @@ def _interpret_update(src, index, local_hash, prefix, undecodable=(), garbled=()
     it = H.Interp(heap)
     try:
         r = it.call(H.Closure(f.node, {}, None, None), ['REMOTE', 'LOCAL'])
-        return ('return', 'LINES' if isinstance(r, H.Ref) and r.name == '@locallines' else r), log
+        return ('return', 'LINES' if isinstance(r, H.Ref) and (r.name == '@locallines' or r == state.get('local_lines')) else r), log
     except H.Raised as x:
         return ('raise', x.exc), log
 
@@ -1369,6 +1419,9 @@ def check(src, rep, tier):
     rep.guard('C19.R5', r5_hash_backends, src)
     rep.need('C19.R9', 3)
     rep.guard('C19.R9', r9_faithful_io, src)
+    # ... and where the CONTENT -- the local copy, a downloaded text -- is cut into lines by the library itself, only a line feed ends a
+    # line (the patches address lines as the repository counted them)
+    rep.guard('C19.R9', r9b_content_lines, src)
     rep.guard('C19.R6', r6_temp_download, src)
     soft.guard('C19.R7', r7_history_order, src, g)
     soft.guard('C19.R8', r8_malformed_entries, src)
